@@ -9,6 +9,7 @@
 #include "myth/myth_spinlock.h"
 #include "myth_mem_barrier_func.h"
 #include "myth_config.h"
+#include "myth_verif.h"
 
 /* ----------- spin locks----------- */
 
@@ -28,7 +29,9 @@ static inline int myth_spin_lock_body(myth_spinlock_t *lock) {
   int failed = 0;
   while (!myth_spin_trylock_body(lock)) {
     failed++;
+    MYTH_VERIF_SPIN(SPINLOCK_SPIN);
   }
+  if (failed) MYTH_VERIF_COV(SPINLOCK_WAITED);
   return failed;
 }
 
